@@ -30,6 +30,7 @@ impl Copy for PublicKey {}
 //@type vls-core/src/util/velocity.rs :: VelocityControl as=CoreVelocityControl
 //@type vls-persist/src/model.rs :: NodeStateEntry
 //@type vls-persist/src/model.rs :: NodeEntry
+//@type vls-persist/src/model.rs :: AllowlistItemEntry
 
 
 // NodeState as far as this unit looks into it (the whole type is under contract in units node_restore / node_payments)
@@ -37,7 +38,17 @@ pub struct NodeState {
     pub velocity_control: CoreVelocityControl,
     pub fee_velocity_control: CoreVelocityControl,
     pub dbid_high_water_mark: u64,
+    pub allowlist: VxAllowSet,
     pub rest: NodeStateRest,
+}
+#[verifier::external_body] pub struct VxAllowSet { _p: u8 }
+// `allowlist.into_iter().collect()` into the OrderedSet of NodeState (NodeState::restore, proved there: [C11.restore.fields])
+pub uninterp spec fn collected_allowlist(v: Seq<VxAllowable>) -> VxAllowSet;
+// Allowable::from_str(text, network)
+pub uninterp spec fn allowable_parse(s: VxStr, n: Network) -> Option<VxAllowable>;
+// the entries `texts` parse to, in order (None when one of them does not parse)
+pub open spec fn parsed_all(texts: Seq<VxStr>, n: Network, r: Seq<VxAllowable>) -> bool {
+    r.len() == texts.len() && forall|i: int| 0 <= i < texts.len() ==> #[trigger] allowable_parse(texts[i], n) == Some(r[i])
 }
 
 impl CoreVelocityControl {
@@ -95,6 +106,7 @@ impl NodeState {
 //@fn vls-core/src/node.rs :: impl NodeState :: restore mode=trusted
 //@sigsub /: VelocityControl\b/ => : CoreVelocityControl
     ensures r.velocity_control == velocity_control, r.fee_velocity_control == fee_velocity_control, r.dbid_high_water_mark == dbid_high_water_mark,
+        r.allowlist == collected_allowlist(allowlist@),
 //@end
 }
 
@@ -116,6 +128,14 @@ pub fn vx_parse_network(entry: &NodeEntry) -> Result<Network, Error> { unimpleme
 #[verifier::external_body]
 pub fn vx_node_entry_prefix() -> VxStr { unimplemented!() }
 pub uninterp spec fn stored_state_bytes(p: VxKvvPersister, node_id: PublicKey) -> Seq<u8>;
+pub uninterp spec fn stored_allowlist_bytes(p: VxKvvPersister, node_id: PublicKey) -> Seq<u8>;
+// serde of AllowlistItemEntry { allowlist: Vec<String> } (assumed a round trip, like the other entries)
+pub uninterp spec fn ser_allowlist(texts: Seq<VxStr>) -> Seq<u8>;
+pub uninterp spec fn de_allowlist(bytes: Seq<u8>) -> Seq<VxStr>;
+#[verifier::external_body]
+pub fn vx_ser_allowlist_entry(e: &AllowlistItemEntry) -> (r: Result<Vec<u8>, Error>) ensures r.is_ok() ==> r->Ok_0@ == ser_allowlist(e.allowlist@) { unimplemented!() }
+#[verifier::external_body]
+pub fn vx_de_allowlist_entry(value: &Vec<u8>) -> (r: Result<AllowlistItemEntry, Error>) ensures r.is_ok() ==> r->Ok_0.allowlist@ == de_allowlist(value@) { unimplemented!() }
 impl VxKvvPersister {
     // get_prefix(prefix).map(KVV::into_inner).filter(non-empty values): the node entries, key and value
     #[verifier::external_body]
@@ -124,8 +144,22 @@ impl VxKvvPersister {
     // self.get(make_key(NODE_STATE_PREFIX, node_id))?.ok_or(NotFound)?.1 : the stored node-state value
     #[verifier::external_body]
     pub fn vx_get_state_value(&self, node_id: &PublicKey) -> (r: Result<Vec<u8>, Error>) ensures r.is_ok() ==> r->Ok_0@ == stored_state_bytes(*self, *node_id) { unimplemented!() }
+    // `self.get_node_allowlist(&node_id).map(|strings| strings.into_iter().map(|s| Allowable::from_str(&s, network)).collect::<Result<Vec<_>, _>>())
+    //      .unwrap_or(Ok(Vec::new())).map_err(..)?` (std semantics of the adaptors): the stored texts parsed in order - an
+    // unparsable text is an error - and NO entries when the stored list cannot be read (observation: a read failure of the
+    // allowlist record restores an empty allowlist, the restrictive direction; storage failures are outside the properties)
     #[verifier::external_body]
-    pub fn vx_allowlist(&self, node_id: &PublicKey, network: Network) -> Result<Vec<VxAllowable>, Error> { unimplemented!() }
+    pub fn vx_allowlist(&self, node_id: &PublicKey, network: Network) -> (r: Result<Vec<VxAllowable>, Error>)
+        ensures r.is_ok() ==> (if self.allowlist_readable(*node_id) { parsed_all(de_allowlist(stored_allowlist_bytes(*self, *node_id)), network, r->Ok_0@) }
+                               else { r->Ok_0@.len() == 0 })
+    { unimplemented!() }
+    pub uninterp spec fn allowlist_readable(&self, node_id: PublicKey) -> bool;       // get_node_allowlist answers Ok
+    pub uninterp spec fn kv_put_allowlist(&self, node_id: PublicKey, value: Seq<u8>) -> bool;    // call marker: put(allowlist key of this node, value)
+    #[verifier::external_body]
+    pub fn vx_put_allowlist(&self, node_id: &PublicKey, value: Vec<u8>) -> (r: Result<(), Error>) ensures r.is_ok() ==> self.kv_put_allowlist(*node_id, value@) { unimplemented!() }
+    // self.get(&key)?.expect("allowlist not found").1 : the stored allowlist value (abort when there is none)
+    #[verifier::external_body]
+    pub fn vx_get_allowlist_value(&self, node_id: &PublicKey) -> (r: Result<Vec<u8>, Error>) ensures r.is_ok() ==> r->Ok_0@ == stored_allowlist_bytes(*self, *node_id) { unimplemented!() }
 
     // the write side: keys, serialisation (serde, assumed a round trip) and the store's put / delete (units kvv_*)
     pub uninterp spec fn kv_put_state(&self, node_id: PublicKey, value: Seq<u8>) -> bool;     // call marker: put(node-state key of this node, value)
@@ -151,6 +185,24 @@ impl VxKvvPersister {
 //@sub /self\.put\(&key, value\)/ => self.vx_put_state(node_id, value)
 //@end
 
+//@fn vls-persist/src/kvv.rs :: impl<S: KVVStore, F: ValueFormat> Persist for KVVPersister<S, F> :: update_node_allowlist props=C11
+    ensures
+        // the list handed over by Node::update_allowlist (unit node_allowlist) goes to the store, as it is, under this node's
+        // allowlist key
+        r.is_ok() ==> self.kv_put_allowlist(*node_id, ser_allowlist(allowlist@)),                                     //[C11.store.allowlist-written-under-node-key]
+//@sub /(?s)let key = make_key\(ALLOWLIST_PREFIX, &node_id\.serialize\(\)\);/ => 
+//@sub /F::ser_value\(&entry\)\?/ => vx_ser_allowlist_entry(&entry)?
+//@sub /self\.put\(&key, value\)/ => self.vx_put_allowlist(node_id, value)
+//@end
+
+//@fn vls-persist/src/kvv.rs :: impl<S: KVVStore, F: ValueFormat> Persist for KVVPersister<S, F> :: get_node_allowlist props=C11
+    ensures
+        r.is_ok() ==> r->Ok_0@ == de_allowlist(stored_allowlist_bytes(*self, *node_id)),                              //[C11.store.allowlist-read-back-from-node-key]
+//@sub /(?s)let key = make_key\(ALLOWLIST_PREFIX, &node_id\.serialize\(\)\);/ => 
+//@sub /let value = self\.get\(&key\)\?\.vx_expect\(\)\.1;/ => let value = self.vx_get_allowlist_value(node_id)?;
+//@sub /let entry: AllowlistItemEntry = F::de_value\(&value\)\?;/ => let entry: AllowlistItemEntry = vx_de_allowlist_entry(&value)?;
+//@end
+
 //@fn vls-persist/src/kvv.rs :: impl<S: KVVStore, F: ValueFormat> Persist for KVVPersister<S, F> :: delete_node props=C11
     ensures r.is_ok() ==> self.kv_deleted_entry(*node_id) && self.kv_deleted_state(*node_id),                     //[C11.store.delete-node-removes-both-records]
 //@sub /let id = node_id\.serialize\(\);/ => 
@@ -172,6 +224,10 @@ impl VxKvvPersister {
             st.velocity_control == to_core(e.velocity_control) && st.fee_velocity_control == to_core(e.fee_velocity_control)    //[C12.store.each-control-restored-from-its-own-record]
             && st.dbid_high_water_mark == e.dbid_high_water_mark                                                              //[C15.store.hwm-restored]
         }),
+        // ... and the allowlist: the set of the entries that the stored texts parse to (when the stored list can be read)
+        r.is_ok() ==> forall|i: int| 0 <= i < r->Ok_0@.len() && self.allowlist_readable((#[trigger] r->Ok_0@[i]).0) ==>
+            exists|al: Seq<VxAllowable>, n: Network| parsed_all(de_allowlist(stored_allowlist_bytes(*self, r->Ok_0@[i].0)), n, al)
+                && r->Ok_0@[i].1.state.allowlist == collected_allowlist(al),                                             //[C11.store.allowlist-restored-from-stored-texts]
 //@sub /let mut res = Vec::new\(\);/ => let mut res: Vec<(PublicKey, VxCoreNodeEntry)> = Vec::new();
 //@proof after /let \(key, value\) = vx_kv;/
             let ghost vx_key = key;
@@ -198,6 +254,9 @@ impl VxKvvPersister {
                 st.velocity_control == to_core(e.velocity_control) && st.fee_velocity_control == to_core(e.fee_velocity_control)
                 && st.dbid_high_water_mark == e.dbid_high_water_mark
             }),
+            forall|i: int| 0 <= i < res@.len() && self.allowlist_readable((#[trigger] res@[i]).0) ==>
+                exists|al: Seq<VxAllowable>, n: Network| parsed_all(de_allowlist(stored_allowlist_bytes(*self, res@[i].0)), n, al)
+                    && res@[i].1.state.allowlist == collected_allowlist(al),
 //@end
 }
 // lightning_signer::persist::model::NodeEntry (key derivation style, network, state)
